@@ -15,7 +15,7 @@ func init() {
 	register(&Prop{
 		ID:    "C11",
 		Level: "exploration",
-		Rule:  "case = generated store + history of put/remove/delete statements; each `delete where P [limit s,n]` is judged against the engine's own `select * where P` (no LIMIT, row mode, cache off) executed on a copy of the prior state and sliced [s,s+n) by the harness: store afterwards must equal prior minus exactly those keys, byte for byte, with no Put/BatchPut issued. Then each delete is re-executed with single faults (every write call x {err, err-applied, err-partial}, plus sampled read calls) under the narrowed oracle deleted ⊆ selected, others untouched, nothing written, error surfaced. distinct_nontrivial counts distinct (plan-node chain, drain mode, limit class, selected-vs-batch class, fault kind) tuples of deletes whose reference select returned at least one key or whose plan reached storage.",
+		Rule:  "case = generated store + history of put/remove/delete statements; each `delete where P [limit s,n]` is judged against the engine's own `select * where P` (no LIMIT, row mode, cache off) executed on a copy of the prior state and sliced [s,s+n) by the harness: store afterwards must equal prior minus exactly those keys, byte for byte, with no Put/BatchPut issued. Then each delete is re-executed with single faults (every write call x {err, err-applied, err-partial}, plus sampled read calls) under the narrowed oracle deleted ⊆ selected, others untouched, nothing written, error surfaced. distinct_nontrivial counts distinct (plan-node chain, drain mode, limit class, selected-vs-batch class, fault kind) tuples of deletes whose reference select returned at least one key or whose plan reached storage. Rare families: scale (255..1100 pairs), big (3000..140000 pairs, batch sizes to 70000, limits beyond 65536, literal key sets of 1100/2100 keys), byte-keyed stores with byte literals, chains of up to 300 disjuncts with one guarded key, sibling-pair predicates (two atoms of one shape over literals differing in the last byte).",
 		Assumptions: []string{
 			"storage with snapshot cursors (DESIGN.md §3.3); eager and lazy snapshot variants both exercised",
 			"the reference cell (row mode, cache off, unlimited select) is the engine's own; where row and batch unlimited selects disagree the case is counted as confounded and not judged here (C03's matter)",
@@ -373,8 +373,9 @@ func runC11(sc *Scenario, st *Stats) []Violation {
 			fv := runC11Fault(sc, f, d.si, d.prior, d.sel, st)
 			for i := range fv {
 				if len(sc.Faults) == 0 {
-					fv[i].Pinned = cloneScenario(sc)
-					fv[i].Pinned.Faults = []Fault{f}
+					c := *sc // shared, not copied: nothing mutates a scenario
+					c.Faults = []Fault{f}
+					fv[i].Pinned = &c
 				}
 			}
 			vs = append(vs, fv...)
